@@ -382,3 +382,33 @@ def dispatch_once_clause(ctx, res, clause, prop, cid):
         res.add(Finding(prop, cid, 'R-ABSINT', ww.file, ww.qualname, ww.node.lineno, 'task queued more than once',
                         'one call of the dispatch routine can queue the recording more than once: the recording is replayed twice',
                         witness=dw.path_to(n, s)))
+
+
+def nullable_handle_clause(ctx, res, clause, prop, cid):
+    """the worker handle is known to be set wherever the dispatch routine (helpers inlined) calls a method on it"""
+    repo = ctx.repo
+    eq = em.equalizer(repo)
+    excm = ctx.excm(em.EQ_SCOPE)
+    ww = em.EqRoles(repo).dispatch
+    handle = worker_handle(eq)
+    dw = small.analyse(repo, excm, ww, policy=InlineEq(repo, excm), domain=em.EqDomain)
+    clause.evaluations += dw.visited_pairs
+    badn = None
+    for node, t, st, st_in in dw.at:
+        c = node.ast
+        if isinstance(c.func, ast.Attribute) and self_attr(c.func.value) == handle:
+            v = st_in.env.get(('F', 'self', handle))
+            if v is None:
+                f = st_in.facts.get(('field', 'self', handle))
+                known = f is not None and f[0] is False
+            else:
+                known = dw.is_none(v, st_in) is False
+            if not known:
+                badn = badn or (node, st_in)
+    clause.instance('the worker handle is known to be set at every call on it', ww.qualname, badn is None)
+    if badn:
+        node, st = badn
+        res.add(Finding(prop, cid, 'R-ORDER', node.file, node.frame.func.qualname, node.line, ast.unparse(node.ast),
+                        'the worker handle may be None here (forgotten after a timeout / death of the worker): dispatching the next recording raises '
+                        'inside the framework, so every later recording gets a framework failure instead of its own verdict',
+                        witness=dw.path_to(node, st) if (node.id, st.key()) in dw.pred else None))
